@@ -1,14 +1,27 @@
 #!/bin/bash
-# build.sh <std|race|vfs>: incremental build of the harness against /repo (hooks on).
+# build.sh <std|race|vfs>: incremental build of the harness against /repo's working tree (hooks on).
+# VERIF_REPO=<dir> builds against a scratch copy of the repository instead (used only to validate
+# the monitors against mutants; registered checks always use /repo). Prints nothing on success.
 set -eu
 here="$(cd "$(dirname "$0")" && pwd)"
 export GOFLAGS=-mod=mod GOPROXY=off
 variant="${1:-std}"
 mkdir -p "$here/bin"
 cd "$here/harness"
+suffix=""
+modflag=()
+repo="${VERIF_REPO:-/repo}"
+if [ "$repo" != "/repo" ]; then
+  tag="$(echo -n "$repo" | md5sum | cut -c1-8)"
+  suffix="-$tag"
+  sed "s#=> /repo#=> $repo#" go.mod > "$here/bin/alt-$tag.mod"
+  cp go.sum "$here/bin/alt-$tag.sum"
+  modflag=(-modfile="$here/bin/alt-$tag.mod")
+fi
+out="$here/bin/vh-$variant$suffix"
 case "$variant" in
-  std)  CGO_ENABLED=0 go build -tags verif -o "$here/bin/vh-std" ./cmd/vh ;;
-  race) CGO_ENABLED=1 go build -race -tags verif -o "$here/bin/vh-race" ./cmd/vh ;;
-  vfs)  CGO_ENABLED=1 go build -tags "verif vfs" -o "$here/bin/vh-vfs" ./cmd/vh ;;
+  std)  CGO_ENABLED=0 go build "${modflag[@]}" -tags verif -o "$out" ./cmd/vh ;;
+  race) CGO_ENABLED=1 go build "${modflag[@]}" -race -tags verif -o "$out" ./cmd/vh ;;
+  vfs)  CGO_ENABLED=1 go build "${modflag[@]}" -tags "verif vfs" -o "$out" ./cmd/vh ;;
   *) echo "unknown variant $variant" >&2; exit 2 ;;
 esac
